@@ -2,7 +2,7 @@
 import json, os, time, shutil
 import vlib
 from vlib import (ROOT, BUILD, log, BuildLock, ensure_tables, check_proofs, hygiene, ensure_runner,
-                  ensure_harness, run_seq_suites, minimize, coq_crosscheck, write_evidence, write_replay,
+                  ensure_harness, run_seq_suites, run_conc_suites, minimize, coq_crosscheck, write_evidence, write_replay,
                   load_known, PROPS, KINDS, TRUSTED_BASE, replay_trace)
 
 
@@ -69,6 +69,13 @@ def run_property(prop, tier, seed, replay):
     if ok_r and ok_h:
         obligations += 1  # the seq correspondence
         diffs = run_seq_suites(prop, cfg, tier, seed, work, report)
+        monitor = []
+        if cfg.get("conc"):
+            obligations += 1
+            cd, monitor = run_conc_suites(prop, cfg, tier, seed, work, report)
+            diffs += cd
+            if not cd and not report["errors"]:
+                discharged += 1
         extra = cfg.get("extra")
         if extra:
             obligations += 1
@@ -93,12 +100,37 @@ def run_property(prop, tier, seed, replay):
                 report["errors"].append("in-Coq evaluation disagrees with the extracted runner: " + xc_log[-1500:])
 
     # ---- 3. violations
-    known = load_known()
+    known = [k for k in load_known() if k.get("property") == prop]
     known_lines = []
     seen = set()
+    # what the concurrency monitor found: outcomes no one-at-a-time order explains, stuck steps
+    reproduced = {}
+    for m in (monitor if (ok_r and ok_h) else []):
+        if m["kind"] not in cfg.get("monitor_kinds", ["NONLIN", "STUCK"]):
+            continue
+        cls = m["class"]
+        kf = [k for k in known if k.get("class") == cls] if (m["kind"] == "NONLIN" and cfg.get("known_classes")) else []
+        if kf:
+            reproduced.setdefault(cls, (kf[0], m))
+            continue
+        body = {"what": ("%s: outcome of case %s is not that of any one-at-a-time order (class %s)" % (m["suite"], m["case"], cls))
+                        if m["kind"] == "NONLIN" else ("%s: %s" % (m["suite"], " ".join([m["case"], cls]))),
+                "profile": "conc", "trace": m["trace"], "theorems": names}
+        key = json.dumps(m["trace"])
+        if key in seen or len(violations) >= 5:
+            continue
+        seen.add(key)
+        violations.append((write_replay(prop, body), True))
+    for cls, (kf, m) in sorted(reproduced.items()):
+        known_lines.append("KNOWN-FINDING: property=%s class=%s site=%s %s (reproduced: case %s)" % (
+            prop, cls, kf.get("site", "?"), kf["what"], m["case"]))
+    for kf in known:
+        if kf.get("class") not in reproduced:
+            known_lines.append("KNOWN-FINDING: property=%s class=%s site=%s %s (listed; not reproduced in this run)" % (
+                prop, kf.get("class"), kf.get("site", "?"), kf["what"]))
     for d in diffs[:5]:
         tag, cid, trace_lines, idx, il, ml = d
-        profile = "conn" if tag.startswith("conn_") else "seq"
+        profile = "conn" if tag.startswith("conn_") else ("conc" if tag.startswith("conc_") else "seq")
         with BuildLock():
             small = minimize(trace_lines, work, profile)
         relevant, kind = classify(prop, cfg, il, ml)
